@@ -41,6 +41,8 @@ def outcome_classes(transport):
         # slow, not dead: every transmission is answered, but far too late (the answers are still in flight afterwards)
         "exhausted_by_late_answers": {"script": [["answer", 40]] * 8},
         "success_fragmented": {"script": [["frag", 9, 2, 6]]},
+        # every transmission is answered by two invalid datagrams / chunks
+        "exhausted_by_double_garbage": {"script": [["pieces", [["garbage", 2], ["garbage", 3]]]] * 8},
         "fragment_then_full_long": {"script": [["frag_then_full", 14, 2, 4]], "command": ["read", 35100, 8]},
     }
     if transport == "tcp":
@@ -106,6 +108,9 @@ def check_history(acc: Acc, case):
     elif k == "short":
         probe_script = [["answer", 1]]
         probe_cmd = ["read", 35100, 1]
+    elif k.startswith("noisy:"):
+        _, d1, d2 = k.split(":")     # every transmission is answered by two invalid datagrams: the budget is still R+1 transmissions
+        probe_script = [["pieces", [["garbage", int(d1)], ["garbage", int(d2)]]]] * (R + 2)
     else:
         raise ValueError(k)
     steps = build_steps(transport, prefix, case.get("gap", 0), probe_script, R)
@@ -144,6 +149,17 @@ def check_history(acc: Acc, case):
             fails.append(("C05|%s|probe-outcome" % cfg, "silent probe ended with %s" % probe.kind, case))
         if any(not netcase.same_request(transport, probe.tx[0][2], e[2]) for e in probe.tx):
             fails.append(("C05|%s|probe-not-identical" % cfg, "retransmissions of the probe differ", case))
+    elif isinstance(k, str) and k.startswith("noisy:"):
+        if len(times) > R + 1:
+            fails.append(("C05|%s|budget-exceeded" % cfg,
+                          "probe answered only by pairs of invalid datagrams (%s) after prefix %s got %d transmissions at %s, "
+                          "configured retries=%d" % (k, prefix, len(times), times, R), case))
+        elif transport != "tcp" and len(times) < R + 1:
+            fails.append(("C05|%s|budget-reduced" % cfg,
+                          "probe answered only by pairs of invalid datagrams (%s) after prefix %s got %d transmissions at %s, "
+                          "configured retries=%d" % (k, prefix, len(times), times, R), case))
+        if probe.kind == "ok":
+            fails.append(("C05|%s|probe-outcome" % cfg, "probe answered only by invalid datagrams ended with a response", case))
     elif isinstance(k, str):
         if probe.kind != "ok":
             fails.append(("C05|%s|valid-slow-answer-not-accepted" % cfg,
@@ -176,7 +192,7 @@ def enum_job(job):
     names = list(outcome_classes(transport)) + ["close", "newloop"]
     for n in (0, 1, 2):
         for prefix in itertools.product(names, repeat=n):
-            for k in (None, R, "slow:15", "slow:9", "fragslow:3:14", "short"):
+            for k in (None, R, "slow:15", "slow:9", "fragslow:3:14", "short", "noisy:2:3"):
                 case = {"transport": transport, "keep": keep, "T": T, "R": R, "prefix": list(prefix), "gap": gap,
                         "k": k, "latency": 0}
                 _apply(acc, case)
@@ -199,6 +215,7 @@ def hyp_job(job):
                 "R": R, "prefix": draw(st.lists(st.sampled_from(names), min_size=1, max_size=8)),
                 "gap": draw(st.one_of(st.just(0), st.just("idle"), st.integers(1, 40))),
                 "k": draw(st.one_of(st.none(), st.integers(0, R), st.integers(0, 15).map(lambda d: "slow:%d" % d), st.just("short"),
+                                    st.tuples(st.integers(0, 15), st.integers(0, 15)).map(lambda t: "noisy:%d:%d" % (min(t), max(t))),
                                     st.tuples(st.integers(0, 15), st.integers(0, 15)).map(lambda t: "fragslow:%d:%d" % (min(t), max(t))))),
                 "latency": draw(st.integers(0, 3))}
 
